@@ -69,7 +69,19 @@ def run(prop, repo="/repo", limit=None):
         base = os.path.join(scratch, "repo")
         subprocess.check_call(["rsync", "-a", "--exclude", "target", "--exclude", ".git", repo + "/", base + "/"])
         # the scratch copy needs a git index for `git apply`-independent patching: use patch(1) semantics via git apply --unsafe-paths
+        import hashlib
+        cdir = os.path.join(VERIF, ".cache", "corpus")
+        os.makedirs(cdir, exist_ok=True)
+        extract.ensure_driver()
+        extract.REPO = repo
+        base_hash = extract.input_hash("lib")
         for (name, kind, patch) in items:
+            ph = hashlib.sha256(open(patch, "rb").read()).hexdigest()[:16]
+            cached = os.path.join(cdir, "%s-%s-%s.json" % (name, base_hash, ph))
+            if os.path.isfile(cached):
+                # facts of this patch on this tree were extracted before (tools/corpus.py shares the cache)
+                jobs.append((prop, name, kind, cached))
+                continue
             for f in ("src",):
                 shutil.rmtree(os.path.join(base, f), ignore_errors=True)
                 shutil.copytree(os.path.join(repo, f), os.path.join(base, f))
@@ -84,9 +96,8 @@ def run(prop, repo="/repo", limit=None):
             except Exception as e:
                 skipped.append((name, "does not build: %s" % str(e)[:80]))
                 continue
-            fp = os.path.join(scratch, "facts-%s.json" % name)
-            shutil.copy(path, fp)
-            jobs.append((prop, name, kind, fp))
+            shutil.copy(path, cached)
+            jobs.append((prop, name, kind, cached))
         extract.REPO = repo
         ctx = multiprocessing.get_context("fork")
         with ctx.Pool(min(12, max(1, len(jobs)))) as pool:
